@@ -29,7 +29,7 @@ func init() {
 	runner.Register(&runner.Check{
 		ID:    "C20",
 		Level: "fault_enumeration",
-		Rule: "base transactions: memory-buffered / spilled / spilled+ProcessPartial request body, multipart with 1 and 2 files under SecUploadKeepFiles Off / On / RelevantOnly (with and without a logged match), malformed multipart and JSON bodies, response body, interruption in phase 1-4, audit record through the real serial and concurrent file writers; " +
+		Rule: "base transactions: memory-buffered / spilled / spilled+ProcessPartial request body, multipart with 1 and 2 files under SecUploadKeepFiles Off / On / RelevantOnly (with and without a logged match), bodies their processor rejects (truncated JSON, multipart delimited by another boundary or lacking the blank line after a part header: the fault-free run itself must surface the error) and bodies it tolerates by design (truncated multipart, non-strict XML: exercised, not asserted), response body, interruption in phase 1-4, audit record through the real serial and concurrent file writers; " +
 			"for each, every file-system operation the run performs (create, open, write, read-at, close, remove, mkdir, writefile — intercepted by the os shim) fails in turn (quick: every single fault, error-before and short-write; thorough: every combination of up to three faults), and independently the run is abandoned after each of its API calls and closed; private temp / upload / audit directories per execution. " +
 			"Oracle: no panic; every injected failure surfaces (returned error, REQBODY_ERROR / MULTIPART_STRICT_ERROR, or an Error-level debug-log record); after Close the temp and upload directories are empty unless retention applies or the failed operation was that file's own removal; the open-descriptor count is back to its baseline; a probe transaction on the recycled object equals the fresh outcome. " +
 			"distinct_nontrivial = distinct (base transaction, fault position and mode | abandonment point) actually reached",
@@ -52,6 +52,8 @@ type base struct {
 	Response bool
 	Keep     string // Off | On | RelevantOnly
 	Logged   bool   // a logged match happens (RelevantOnly keeps files)
+	// BadBody: the body cannot be parsed by its processor: the fault-free run itself must surface that
+	BadBody bool
 }
 
 const mp2 = "--B\r\nContent-Disposition: form-data; name=\"f1\"; filename=\"a.txt\"\r\nContent-Type: text/plain\r\n\r\nfile one contents\r\n--B\r\nContent-Disposition: form-data; name=\"f2\"; filename=\"b.txt\"\r\nContent-Type: text/plain\r\n\r\nfile two\r\n--B\r\nContent-Disposition: form-data; name=\"a\"\r\n\r\nfield\r\n--B--\r\n"
@@ -64,8 +66,12 @@ func bases() []base {
 		base{Name: "spilled body", Conf: "SecRequestBodyInMemoryLimit 4\n", CT: "application/x-www-form-urlencoded", Body: "a=1&b=2&c=33333333"},
 		base{Name: "spilled body, ProcessPartial", Conf: "SecRequestBodyInMemoryLimit 4\nSecRequestBodyLimit 12\nSecRequestBodyLimitAction ProcessPartial\n", CT: "application/x-www-form-urlencoded", Body: "a=1&b=2&c=33333333"},
 		base{Name: "spilled body, Reject", Conf: "SecRequestBodyInMemoryLimit 4\nSecRequestBodyLimit 12\nSecRequestBodyLimitAction Reject\n", CT: "application/x-www-form-urlencoded", Body: "a=1&b=2&c=33333333"},
-		base{Name: "malformed JSON", CT: "application/json", Body: `{"a":`, Flags: "json"},
-		base{Name: "malformed multipart", CT: "multipart/form-data; boundary=B", Body: "--B\r\nContent-Disposition: form-data; name=\"f1\"; filename=\"a.txt\"\r\n\r\nunterminated", Keep: "Off"},
+		base{Name: "malformed JSON", CT: "application/json", Body: `{"a":`, Flags: "json", BadBody: true},
+		base{Name: "malformed multipart", CT: "multipart/form-data; boundary=B", Body: "--B\r\nContent-Disposition: form-data; name=\"f1\"; filename=\"a.txt\"\r\n\r\nunterminated", Keep: "Off"}, // truncation is tolerated by design (a body cut by ProcessPartial is still inspected)
+		base{Name: "multipart delimited by another boundary", CT: "multipart/form-data; boundary=B", Body: strings.ReplaceAll(mp1, "--B", "--OTHER"), Keep: "Off", BadBody: true},
+		base{Name: "multipart ending on a non-final delimiter", CT: "multipart/form-data; boundary=B", Body: strings.TrimSuffix(mp2, "--\r\n") + "\r\n", Keep: "Off"}, // truncation again: not asserted
+		base{Name: "multipart part without header end", CT: "multipart/form-data; boundary=B", Body: "--B\r\nContent-Disposition: form-data; name=\"a\"\r\nfield\r\n--B--\r\n", Keep: "Off", BadBody: true},
+		base{Name: "malformed XML", CT: "text/xml", Body: "<a><b></a>", Flags: "xml"}, // the XML processor is non-strict by design: not asserted
 		base{Name: "response body", Response: true},
 		base{Name: "spilled body + response body", Conf: "SecRequestBodyInMemoryLimit 4\n", CT: "application/x-www-form-urlencoded", Body: "a=1&b=2&c=33333333", Response: true},
 	)
@@ -121,6 +127,7 @@ func (b base) conf(d dirs) string {
 	}
 	sb.WriteString(extra)
 	sb.WriteString("SecRule REQUEST_HEADERS:X-F \"@contains json\" \"id:10,phase:1,pass,nolog,ctl:requestBodyProcessor=JSON\"\n")
+	sb.WriteString("SecRule REQUEST_HEADERS:X-F \"@contains xml\" \"id:12,phase:1,pass,nolog,ctl:requestBodyProcessor=XML\"\n")
 	sb.WriteString("SecRule REQUEST_HEADERS:X-F \"@contains match\" \"id:11,phase:1,pass,log,msg:'logged match'\"\n")
 	for ph := 1; ph <= 4; ph++ {
 		fmt.Fprintf(&sb, "SecRule REQUEST_HEADERS:X-F \"@contains deny%d\" \"id:%d,phase:%d,deny,status:403,log\"\n", ph, 20+ph, ph)
@@ -386,6 +393,9 @@ func judge(b base, k kase, res result, ref string, report func(sig, text string)
 	if res.panicText != "" {
 		report("panic:"+res.panicText, desc+"\npanic: "+res.panicText)
 		return
+	}
+	if b.BadBody && res.faulted == nil && k.Stop < 0 && len(res.signals) == 0 {
+		report("body-parse-error-swallowed:"+b.Name, desc+"\nthe body cannot be parsed by its processor, yet no call returned an error, no error variable is set and nothing was logged at Error level: the body counts as inspected")
 	}
 	if res.faulted != nil && len(res.signals) == 0 {
 		report("failure-swallowed:"+res.faulted.Op+" "+res.faulted.Name, desc+"\nthe injected failure produced no returned error, no error variable and no Error-level log record")
